@@ -350,8 +350,8 @@ VARIANTS = [
     Variant("scrub-after-sum", F, "        paf[torch.isnan(paf)] = 0.0\n\n        pafs += paf\n", "        pafs += paf\n        paf[torch.isnan(paf)] = 0.0\n", "C05-nan"),
     Variant("scrub-wrong-array", F, "        paf[torch.isnan(paf)] = 0.0\n", "        paf[torch.isnan(pafs)] = 0.0\n", "C05-nan"),
     Variant("sum-to-max", F, "        pafs += paf\n", "        pafs = torch.maximum(pafs, paf)\n", "C05-sum"),
-    Variant("bp-sum-enumerate", F, "    n_instances = edge_sources.shape[0]\n    for i in range(n_instances):\n        edge_source = edge_sources[i, :]", "    for i, edge_source in enumerate(edge_sources):", None),
-    Variant("bp-sum-zip", F, "    n_instances = edge_sources.shape[0]\n    for i in range(n_instances):\n        edge_source = edge_sources[i, :]\n        edge_destination = edge_destinations[i, :]", "    for edge_source, edge_destination in zip(edge_sources, edge_destinations):", None),
+    Variant("bp-sum-enumerate", F, "    for i in range(n_instances):\n        edge_source = edge_sources[i, :]", "    for i, edge_source in enumerate(edge_sources):", None),
+    Variant("bp-sum-zip", F, "    for i in range(n_instances):\n        edge_source = edge_sources[i, :]\n        edge_destination = edge_destinations[i, :]", "    for edge_source, edge_destination in zip(edge_sources, edge_destinations):", None),
     Variant("sum-wrong-destination", F, "        edge_destination = edge_destinations[i, :]", "        edge_destination = edge_destinations[0, :]", "C05-sum"),
     Variant("range-no-square", "sleap_nn/data/utils.py", "    return torch.exp(-(x**2) / (2 * sigma**2))", "    return torch.exp(-(x) / (2 * sigma**2))", "C05-range"),
     Variant("dir-reversed", F, "    unit_vectors = edge_destination - edge_source\n", "    unit_vectors = edge_source - edge_destination\n", "C05-dir"),
